@@ -308,3 +308,28 @@ def check(ctx, pid, groups, predicate=None):
                       'the hand model / oracle of this check is tied to the binary only' % (label, worst, ('; ' + note) if note else ''),
                       dict(kind='source reading', disagreeing=[f[0] for f in failures][:8]), found_input=False)
     return True
+
+
+# ---------------------------------------------------------------------------------------------- emulated rebuild of a shell model
+import contextlib
+import types
+
+
+@contextlib.contextmanager
+def conecyl_source_build(model):
+    """Within the block, ConeCyl objects of `model` run on the SOURCE AS WRITTEN of their linear-kernel and commons modules (executed from text by
+    tools/cyexec.py) instead of the compiled binaries: an emulated rebuild, since Cython cannot be run here.  The package's registry
+    compmech.conecyl.modelDB.db is patched from this process and restored afterwards; nothing in the repository is touched.  Slow (Python loops):
+    meant for a handful of small shells in the failing-input search."""
+    from compmech.conecyl import modelDB
+    entry = modelDB.db[model]
+    saved = {k: entry[k] for k in ('linear', 'commons')}
+    try:
+        for key in ('linear', 'commons'):
+            mod = entry[key]
+            rel = mod.__name__.split('compmech.', 1)[1].replace('.', '/') + '.pyx'
+            ns = cyexec.load(cc.source(rel), repo=cc.REPO)
+            entry[key] = types.SimpleNamespace(**{k: v for k, v in ns.items() if not k.startswith('__')}, __name__=mod.__name__ + ' (source reading)')
+        yield
+    finally:
+        entry.update(saved)
